@@ -65,3 +65,8 @@ def schema():
                   os.path.join(REPO, "drivers", "pg", "query", "sql", "schema_up.sql"), os.path.join(GEN, "Schema.lean")], timeout=120)
     if rc != 0:
         raise RuntimeError("schema.py failed: " + out[-1500:])
+
+
+def c02guard():
+    """optimize/lowering_plan.go + translate/projection.go -> Generated/C02Guard.lean (guards of limit pushdown / count fast path as source text)."""
+    goext("c02guard", "C02Guard.lean")
